@@ -326,7 +326,12 @@ func (vr *variableResolver) resolve(ctx *ExecutionContext) (*Value, error) {
 					case reflect.Struct:
 						current = current.FieldByName(part.s)
 					case reflect.Map:
-						current = current.MapIndex(reflect.ValueOf(part.s))
+						key := reflect.ValueOf(part.s)
+						if !key.Type().AssignableTo(current.Type().Key()) {
+							// A name can only be a key of a map with string keys
+							return AsValue(nil), nil
+						}
+						current = current.MapIndex(key)
 					default:
 						return nil, fmt.Errorf("can't access a field by name on type %s (variable %s)",
 							current.Kind().String(), vr.String())
